@@ -460,6 +460,10 @@ pub fn run(report: &Report, thorough: bool) -> Evidence {
                     if h[0] == 4 {
                         continue;
                     }
+                    // (quick tier: the histories that begin with the quotation mark - a leading quote is what the wrapping rule is about)
+                    if !thorough && h[0] != 0 {
+                        continue;
+                    }
                     let evs: Vec<Ev> = h.iter().map(|&k| syms[k].clone()).collect();
                     let _ = p.on.apply(&Ev::Finish);
                     let _ = p.off.apply(&Ev::Finish);
